@@ -170,10 +170,53 @@ def rule_wrapper_export_order(ctx: Ctx) -> None:
                 if order.loop_accumulations(fn, cand) and cand != GN:
                     body_var = cand
     if body_var is None:
+        # the body may be assembled by a join over some collection instead of a loop accumulation: find what that collection is
+        for n in ast.walk(fn):
+            if isinstance(n, ast.Call) and call_attr(n) == "append" and norm(n.func.value) == DEFS:
+                for cand in [x.id for x in ast.walk(n.args[0]) if isinstance(x, ast.Name) and x.id != GN]:
+                    srcs = [a.value for a in ast.walk(fn) if isinstance(a, ast.Assign) and len(a.targets) == 1 and norm(a.targets[0]) == cand]
+                    for v in srcs:
+                        if isinstance(v, ast.Call) and call_attr(v) == "join" and v.args and isinstance(v.args[0], (ast.GeneratorExp, ast.ListComp)):
+                            it = v.args[0].generators[0].iter
+                            base, d = order.iter_direction(it)
+                            hops = 0
+                            while base is not None and base != lst and hops < 4:
+                                nxt = [a.value for a in ast.walk(fn) if isinstance(a, ast.Assign) and len(a.targets) == 1 and norm(a.targets[0]) == base]
+                                if not nxt:
+                                    break
+                                v2 = nxt[-1]
+                                if isinstance(v2, (ast.ListComp, ast.GeneratorExp)):
+                                    b2, d2 = order.iter_direction(v2.generators[0].iter)
+                                    base, d = b2, d * d2
+                                elif isinstance(v2, (ast.Dict, ast.Set)) or (isinstance(v2, ast.Call) and call_name(v2) in ("dict", "set")):
+                                    break
+                                else:
+                                    break
+                                hops += 1
+                            keyed = any(isinstance(a, ast.Assign) and len(a.targets) == 1 and norm(a.targets[0]) == base
+                                        and (isinstance(a.value, (ast.Dict, ast.Set)) or (isinstance(a.value, ast.Call) and call_name(a.value) in ("dict", "set")))
+                                        for a in ast.walk(fn)) if base else False
+                            if keyed:
+                                ctx.fail("order.wrapper", m, v,
+                                         f"single_qubit_wrapper_info assembles the composite gate body from `{base}`, a dict/set keyed by gate name, so a "
+                                         f"gate that occurs twice in the wrapper ([H, P, H, P]) is written once: the openQASM definition denotes a "
+                                         f"different unitary than the wrapper", func="single_qubit_wrapper_info",
+                                         construct="single_qubit_wrapper_info: body lists each distinct gate once")
+                                return
+                            if base == lst:
+                                if d == -1:
+                                    ctx.ok("order.wrapper", m, v, what="body joined over the reversed operation list")
+                                    body_var = "<joined>"
+                                else:
+                                    ctx.fail("order.wrapper", m, v, "single_qubit_wrapper_info writes the composite gate body in list order; openQASM applies a body "
+                                                                    "first to last while a wrapper's list means 'last listed acts first'", func="single_qubit_wrapper_info",
+                                             construct="single_qubit_wrapper_info: body direction +1")
+                                    return
+    if body_var is None:
         raise AnalysisError("single_qubit_wrapper_info: composite body accumulator not found")
-    for var, want, why in ((body_var, -1, "openQASM applies the statements of a gate body first to last, while a wrapper's list "
+    for var, want, why in ([] if body_var == "<joined>" else [(body_var, -1, "openQASM applies the statements of a gate body first to last, while a wrapper's list "
                                           "means 'last listed acts first' (unwrap() reverses it)"),
-                           (GN, 1, "from_openqasm rebuilds the wrapper's list from the letters of the name in order")):
+                           ]) + [(GN, 1, "from_openqasm rebuilds the wrapper's list from the letters of the name in order")]:
         acc = order.loop_accumulations(fn, var)
         if not acc:
             raise AnalysisError(f"single_qubit_wrapper_info: accumulation of `{var}` not found")
